@@ -252,6 +252,17 @@ func (s *sched) doRun() {
 	s.maybeExitWaiter()
 }
 
+// doRerun: Run() called again on an executor that is already running.  Line, RunnerQ and ProcChan guard Run with a
+// sync.Once: the second and third call start nothing, the lane keeps its ONE consumer (nothing to record, no label).
+// MultiLine.Run is not guarded on the unchanged code (a second call starts a second set of lane goroutines): that is its
+// behaviour as it is and stays out of this variant.
+func (s *sched) doRerun() {
+	if s.p.X == xMulti || !s.m.started || s.hung {
+		return
+	}
+	s.ex.Run()
+}
+
 func (s *sched) doStop() {
 	s.items = append(s.items, obs{stamp: s.stamp(), kind: oStop})
 	s.ex.Stop()
@@ -510,6 +521,8 @@ func (s *sched) execute() {
 		switch a.K {
 		case "run":
 			s.doRun()
+		case "rerun":
+			s.doRerun()
 		case "sub":
 			s.doSubmit(a.C)
 		case "rel":
